@@ -25,6 +25,20 @@ if [ "$id" = "C34" ]; then
   printf '%s"/repo/x/pocketcore/types/vsync/vsync.go":"%s/vsync.go"}}\n' "$repl" "$ov" > "$ov/overlay.json"
   tags="verif vsched"; overlay=(-overlay "$ov/overlay.json")
 fi
+if [ "$id" = "C12" ]; then
+  # C12: two more worker binaries with a nondeterminism seam each (controlled map order / fake wall clock)
+  ov="$VERIF_WORK/ovl.$$"; mkdir -p "$ov"
+  goroot=$(go env GOROOT)
+  if ! python3 sched/patch_runtime_map.py "$goroot/src/runtime/map.go" "$ov/map.go.txt"; then
+    echo "HARNESS-ERROR: cannot derive the map-order seam from $goroot/src/runtime/map.go"; rm -rf "$ov"; exit 2
+  fi
+  printf '{"Replace":{"%s/src/runtime/map.go":"%s/map.go.txt"}}\n' "$goroot" "$ov" > "$ov/rt.json"
+  if ! go build -tags verif -overlay "$ov/rt.json" -o "$ov/vb.maprot" ./cmd/verifbin 2>"$VERIF_WORK/build.$id.log" ||
+     ! go build -tags "verif faketime" -o "$ov/vb.faketime" ./cmd/verifbin 2>>"$VERIF_WORK/build.$id.log"; then
+    echo "HARNESS-ERROR: seam build failed (see $VERIF_WORK/build.$id.log)"; tail -30 "$VERIF_WORK/build.$id.log"; rm -rf "$ov"; exit 2
+  fi
+  export VERIF_BIN_MAPROT="$ov/vb.maprot" VERIF_BIN_FAKETIME="$ov/vb.faketime"
+fi
 if ! go build -tags "$tags" "${overlay[@]}" -o bin/vb.$$ ./cmd/verifbin 2>"$VERIF_WORK/build.$id.log"; then
   echo "HARNESS-ERROR: build failed (see $VERIF_WORK/build.$id.log)"; tail -30 "$VERIF_WORK/build.$id.log"
   [ -n "$ov" ] && rm -rf "$ov"; exit 2
